@@ -385,6 +385,25 @@ func VH_step_tee() {
 	vapi.Assert(chain(tee, recNext{rec{tag: "main"}}).Handle(cx) == nil, "Handle returned an error")
 }
 
+// VH_tee_vars: the branch and the main chain both run the real PROXY-protocol
+// handler (which records its connection in the connection's variable table) at
+// the same time: the table is per-connection state shared by two goroutines
+// (checked in the engine's race mode).
+func VH_tee_vars() {
+	cx := startState(vapi.Param("MAXB", 200), vapi.Param("MAXD", 100))
+	useHeader(1)
+	mk := func() *l4proxyprotocol.Handler {
+		pp := &l4proxyprotocol.Handler{}
+		vapi.Assert(pp.Provision(caddy.Context{}) == nil, "provision")
+		l4proxyprotocol.VerifQuiet(pp)
+		return pp
+	}
+	st.base += hdrLen
+	tee := l4tee.VerifNew(chain(mk(), recNext{rec{tag: "branch", drain: true}}))
+	vapi.Assert(chain(tee, mk(), recNext{rec{tag: "main"}}).Handle(cx) == nil, "Handle returned an error")
+	vapi.Cover("tee with handlers that set connection variables")
+}
+
 func VH_step_throttle() {
 	cx := startState(10239, 6000)
 	th := &l4throttle.Handler{}
@@ -550,7 +569,7 @@ func init() {
 	for name, f := range map[string]func(){
 		"VH_core": VH_core, "VH_two_matchers": VH_two_matchers, "VH_wrap": VH_wrap, "VH_proxyproto": VH_proxyproto,
 		"VH_tee": VH_tee, "VH_throttle": VH_throttle, "VH_echo": VH_echo, "VH_read_step": VH_read_step,
-		"VH_step_rec": VH_step_rec, "VH_step_wrap": VH_step_wrap, "VH_step_proxyproto": VH_step_proxyproto, "VH_step_tee": VH_step_tee,
+		"VH_step_rec": VH_step_rec, "VH_step_wrap": VH_step_wrap, "VH_step_proxyproto": VH_step_proxyproto, "VH_step_tee": VH_step_tee, "VH_tee_vars": VH_tee_vars,
 		"VH_step_throttle": VH_step_throttle, "VH_step_echo": VH_step_echo, "VH_wrap_step": VH_wrap_step, "VH_pp_allow": VH_pp_allow, "VH_prefetch_step": VH_prefetch_step, "VH_match_step": VH_match_step,
 	} {
 		vapi.Register("c01."+name, f)
